@@ -901,7 +901,7 @@ impl Engine for EnvSim {
     fn runs(&self, tier: Tier) -> u64 {
         match tier {
             Tier::Quick => 100_000,
-            Tier::Thorough => 15_000_000,
+            Tier::Thorough => 30_000_000,
         }
     }
     fn heartbeat(&self) -> u64 {
